@@ -985,6 +985,9 @@ void maximal_independent_set_k_parallel(const I num_rows,
                                         const R  y[], const int  y_size,
                                         const I  max_iters)
 {
+    if(num_rows == 0)
+        return; // no vertices (and no first elements to take addresses of)
+
     std::vector<bool> active(num_rows,true);
 
     std::vector<I> i_keys(num_rows);
